@@ -161,3 +161,26 @@ func HC08_snakeCase() {
 	vfObserve("got", got)
 	vfAssert(got == c08RefSnake(name)+"s", "C08/table-named-by-the-snake-case-plural-convention")
 }
+
+// HC16_replaceEnumsTwoFiles: one process expands the placeholders of two model files whose packages
+// declare the same enum and constant names with different values (what `gomacro -config` does): each
+// file gets the literals of its own constants, whatever was expanded before.
+func HC16_replaceEnumsTwoFiles() {
+	first := vfChoice("first", 2) == 1
+	member := []string{"A", "B"}[vfChoice("member", 2)]
+	again := []string{"A", "B"}[vfChoice("again", 2)]
+	anas := []*analysis.Analysis{c18EnumAnalysis(first), c18EnumAnalysis(!first)}
+	ok := true
+	for round, m := range []string{member, again, member} {
+		i := round % 2
+		stringBacked := first == (i == 0)
+		got := ReplaceEnums(anas[i], "x = #[E."+m+"]")
+		want := "x = " + map[string]string{"A": "3", "B": "4"}[m]
+		if stringBacked {
+			want = "x = 'v" + m + "'"
+		}
+		vfObserve("got", got)
+		ok = ok && len(got) >= len(want) && got[:len(want)] == want
+	}
+	vfAssert(ok, "C16/enum-placeholder-becomes-the-sql-literal-of-the-constant-of-its-own-file")
+}
